@@ -20,9 +20,9 @@ func init() {
 			"R01-optable/R01-layout — every opcode constant has a non-nil jumpTable handler and an opProps row, the operand fields derived from opcode.go's getters/setters tile the 32-bit word and agree with the size/max constants; " +
 			"R01-decode — every shift/mask a VM handler applies to an instruction word is one of the canonical field extractions, the fields a handler decodes fit the instruction format (ABC/ABx/ASbx) declared for its opcode, and sBx is decoded with the encoder's bias; " +
 			"R01-alloc — the number-boxing allocator only appends to its page and replaces it by a fresh one, preloads is written only by init; R01-emit — every opcode the compiler emits is emitted through the encoder matching its declared format and every opcode has an emission site. " +
-			"R01-assign — in the compiler every shortcut that stores into an assignment target, or leaves a local to be read in place, while right-hand sides are still being compiled is guarded by 'exactly one target' (multiple assignment evaluates everything before any store); R01-operands — in every VM handler all RK operand reads precede the handler's first register write (an operand may live in the destination register, or in a register the handler also writes); R01-threading — the jump-threading pass, which patches in place in ascending pc order and follows chains through the live code, interprets an sBx as a label only for a word at or after the current pc (earlier words are already patched and hold distances); R01-peephole — a peephole that removes or retargets the last emitted MOVE/LOADK tests that word's destination register as well as its opcode (the last word may be a capture pseudo-instruction of a CLOSURE or the load of another register); R01-callregs — a call is laid out in fresh registers starting at the caller-supplied temporary (never in the register of an existing local, which the callee expression or the arguments may still read), and the explist of a generic for is assigned to exactly the three hidden variables; R15-mathmap luaModulo shape shared (the % operator's sign adjustment). NOT decided: that the instruction sequence emitted for a statement/expression computes the Lua result (register allocation, jump threading, coercions, evaluation order) — a statement about run-time values.",
+			"R01-assign — in the compiler every shortcut that stores into an assignment target, or leaves a local to be read in place, while right-hand sides are still being compiled is guarded by 'exactly one target' (multiple assignment evaluates everything before any store); R01-operands — in every VM handler all RK operand reads precede the handler's first register write (an operand may live in the destination register, or in a register the handler also writes); R01-threading — the jump-threading pass, which patches in place in ascending pc order and follows chains through the live code, interprets an sBx as a label only for a word at or after the current pc (earlier words are already patched and hold distances); R01-peephole — a peephole that removes or retargets the last emitted MOVE/LOADK tests that word's destination register as well as its opcode (the last word may be a capture pseudo-instruction of a CLOSURE or the load of another register); R01-callregs — a call is laid out in fresh registers starting at the caller-supplied temporary (never in the register of an existing local, which the callee expression or the arguments may still read), and the explist of a generic for is assigned to exactly the three hidden variables; R01-kmv — an operand obtained through constant propagation (it may be an RK-encoded constant index) is emitted only in operand positions that the VM handler of that opcode reads with rkValue/rkString, never in an A field or a plain register operand; R15-mathmap luaModulo shape shared (the % operator's sign adjustment). NOT decided: that the instruction sequence emitted for a statement/expression computes the Lua result (register allocation, jump threading, coercions, evaluation order) — a statement about run-time values.",
 		Trusted: []string{"opcode semantics are those of the handler bodies; only the encoding/decoding agreement is checked"},
-		Rules:   []func(*Ctx){ruleOptable, ruleLayout, ruleDecode, ruleFold, ruleAlloc, ruleEmit, ruleOperandOrder, ruleModuloSign, ruleAssign, ruleThreading, rulePeephole, ruleCallFrameRegs},
+		Rules:   []func(*Ctx){ruleOptable, ruleLayout, ruleDecode, ruleFold, ruleAlloc, ruleEmit, ruleOperandOrder, ruleModuloSign, ruleAssign, ruleThreading, rulePeephole, ruleCallFrameRegs, ruleKmvFlow},
 	})
 }
 
@@ -1215,7 +1215,7 @@ func ruleThreading(c *Ctx) {
 			if li.Body[cl.Block()] && li.Class == "counter" && li.Header != ph.Block() {
 				for _, in := range li.Header.Instrs {
 					if x, ok := in.(*ssa.Phi); ok {
-						if s, _ := g.induction(x, li); s > 0 && x.Comment == "pc" {
+						if s, _ := g.induction(x, li); s > 0 && indexesLoadedWord(fn, x) {
 							pcPhi = x
 						}
 					}
@@ -1347,7 +1347,7 @@ func ruleCallFrameRegs(c *Ctx) {
 	if fn := c.need(R, "lua", "compileFuncCallExpr"); fn != nil {
 		var regParam ssa.Value
 		for _, pm := range fn.Params {
-			if pm.Name() == "reg" {
+			if pm == fn.Params[1] { // (context, reg, expr, ec)
 				regParam = pm
 			}
 		}
@@ -1440,4 +1440,133 @@ func entryLoadOfParam(fn *ssa.Function, v, param ssa.Value) bool {
 		}
 	}
 	return false
+}
+
+// indexesLoadedWord: ph is used as the index of a slice element load (inst := code[pc]).
+func indexesLoadedWord(fn *ssa.Function, ph *ssa.Phi) bool {
+	found := false
+	allInstrs(fn, func(in ssa.Instruction) {
+		if ia, ok := in.(*ssa.IndexAddr); ok && stripConv(ia.Index) == ssa.Value(ph) {
+			for _, r := range *ia.Referrers() {
+				if u, ok := r.(*ssa.UnOp); ok && u.Op == token.MUL {
+					found = true
+				}
+			}
+		}
+	})
+	return found
+}
+
+
+// ruleKmvFlow: compileExprWithKMVPropagation may hand back 256|k, an RK-encoded constant index,
+// instead of a register. Only operand positions that the VM reads through rkValue/rkString understand
+// that encoding. The rule takes the RK-capable positions from the handlers and follows every
+// KMV result in the compiler to the emission it feeds.
+func ruleKmvFlow(c *Ctx) {
+	const R = "R01-kmv"
+	c.floor(R, 7)
+	p := c.P
+	t := p.vmTable()
+	kmv := p.Fn("lua", "compileExprWithKMVPropagation")
+	rkV, rkS := p.Fn("lua", "(*LState).rkValue"), p.Fn("lua", "(*LState).rkString")
+	if kmv == nil || rkV == nil || !t.TableOK {
+		c.und(R, "anchors", "-", "compileExprWithKMVPropagation / rkValue / opcode table not found")
+		return
+	}
+	// VM side: which of B (mask 0x1ff, shift 0) and C (shift 9) each handler reads as RK
+	rkB, rkC := map[int64]bool{}, map[int64]bool{}
+	for _, o := range t.Ops {
+		if o == nil || o.Handler == nil {
+			continue
+		}
+		for _, callee := range []*ssa.Function{rkV, rkS} {
+			if callee == nil {
+				continue
+			}
+			for _, cl := range callsTo(o.Handler, callee) {
+				if _, shift, mask, ok := matchExtract(cl.Call.Args[1]); ok && mask == 0x1ff {
+					switch shift {
+					case 0:
+						rkB[int64(o.Val)] = true
+					case 9:
+						rkC[int64(o.Val)] = true
+					}
+				}
+			}
+		}
+		if o.Shared { // opArith: shared handler, operands decoded the same way for each arithmetic opcode
+			continue
+		}
+	}
+	// shared arithmetic handler: copy its capabilities to every opcode that uses it
+	byHandler := map[*ssa.Function][]int64{}
+	for _, o := range t.Ops {
+		if o != nil && o.Handler != nil {
+			byHandler[o.Handler] = append(byHandler[o.Handler], int64(o.Val))
+		}
+	}
+	for _, codes := range byHandler {
+		b, cc := false, false
+		for _, k := range codes {
+			b = b || rkB[k]
+			cc = cc || rkC[k]
+		}
+		for _, k := range codes {
+			rkB[k], rkC[k] = b, cc
+		}
+	}
+	for _, fn := range p.srcFuncs {
+		if fn.Pkg == nil || fn.Pkg.Pkg.Path() != luaPath {
+			continue
+		}
+		calls := callsTo(fn, kmv)
+		if len(calls) == 0 {
+			continue
+		}
+		emits := p.emitSites(fn)
+		for i, cl := range calls {
+			key := fmt.Sprintf("%s:kmv#%d", fname(fn), i+1)
+			c.Sites++
+			cell, ok := cl.Call.Args[3].(*ssa.Alloc)
+			if !ok {
+				c.bad(R, key, p.ipos(cl), fname(fn)+" lets constant propagation write its result (possibly an RK-encoded constant index) into a location that is not a local of the emitting function: the place that later emits the operand cannot know it may be a constant — a constant used as the object of an indexed assignment ends up in SETTABLE's A field, which names a register")
+				continue
+			}
+			bad := ""
+			var where ssa.Instruction = cl
+			nuse := 0
+			for _, r := range *cell.Referrers() {
+				ld, isLoad := r.(*ssa.UnOp)
+				if !isLoad || ld.Op != token.MUL {
+					continue
+				}
+				for _, e := range emits {
+					if e.Kind != "AddABC" || len(e.Args) < 4 {
+						continue
+					}
+					for pos := 1; pos <= 3; pos++ {
+						if stripConv(e.Args[pos]) != ssa.Value(ld) {
+							continue
+						}
+						nuse++
+						for _, op := range e.Ops {
+							if op == 0 && len(e.Ops) > 1 {
+								continue // the zero value an opcode variable holds before its switch assigns it
+							}
+							okPos := (pos == 2 && rkB[op]) || (pos == 3 && rkC[op])
+							if !okPos {
+								bad = fmt.Sprintf("operand %s of %s", string("?ABC"[pos]), opNames(p, []int64{op}))
+								where = e.In
+							}
+						}
+					}
+				}
+			}
+			if bad != "" {
+				c.bad(R, key, p.ipos(where), fmt.Sprintf("%s emits a constant-propagated operand as %s, which the VM reads as a plain register: when the expression is a constant the instruction names register k (the constant's pool index) instead of the constant — 'if 1 or x then' tests whatever local happens to live there", fname(fn), bad))
+				continue
+			}
+			c.ok(R, key, p.ipos(cl), fmt.Sprintf("flows to %d RK-capable operand position(s) only", nuse))
+		}
+	}
 }
